@@ -25,7 +25,8 @@ Search (the property itself): every sequence SMGen returns (several seeds of `ra
 `numpy.random` drawn from ctx.rng) is judged by the reference oracle
 designrun.oracle_valid(docsem.doc_sem(program), ...) including its length; a violated
 component names the finding: smgen:length:<Shape>, smgen:ignored:<Kind>,
-smgen:crossing:<Shape>, smgen:derived:<Shape>.
+smgen:crossing:<Shape>, smgen:derived:<Shape>; an exception other than the documented
+refusal after the gate was passed is reported as smgen:raises:<Exc>:<function>.
 """
 import copy
 import json
@@ -41,6 +42,7 @@ from common import Violation
 
 TITLE = "SMGen refuses or returns valid sequences"
 LEVEL = "proof (gate, length) + translation_validation (search outputs); timer interleavings partial"
+DOMAINS = ['SM', 'Design']
 
 REFUSED = ("AtMostKInARow", "AtLeastKInARow", "ExactlyK", "Exclude", "Pin")
 
@@ -117,10 +119,27 @@ def run_smgen(block, n, seed, limit):
     old = signal.signal(signal.SIGALRM, handler)
     signal.setitimer(signal.ITIMER_REAL, limit)
     try:
-        return ir.synthesize(block, n, "SMGen")
+        return synthesize_sm(block, n)
     finally:
         signal.setitimer(signal.ITIMER_REAL, 0)
         signal.signal(signal.SIGALRM, old)
+
+
+def synthesize_sm(block, n):
+    """As ir.synthesize(block, n, "SMGen"), but an error also tells where it was raised:
+    ("error", ExcName, message, "func:line" of the innermost frame, in_search?)."""
+    import traceback
+    import sweetpea as sp
+    from sweetpea._internal.sampling_strategy.smgen import SMGen
+    try:
+        with ir.quiet():
+            r = sp.synthesize_trials(block, n, SMGen)
+        return ("ok", r)
+    except Exception as e:  # noqa
+        tb = traceback.extract_tb(e.__traceback__)
+        names = [f.name for f in tb]
+        inner = "%s:%d" % (tb[-1].name, tb[-1].lineno) if tb else "?"
+        return ("error", type(e).__name__, str(e)[:300], inner, "sm_backtrack_random" in names)
 
 
 # --------------------------------------------------------------------------- summary of the real block
@@ -189,13 +208,20 @@ def classify_real(block, r):
             if msg.startswith(c):
                 return "core-refuse " + c
         return "refuse other " + msg[:60]
-    if exc == "AssertionError":
+    inner = r[3] if len(r) > 3 else "?"
+    in_search = r[4] if len(r) > 4 else False
+    if in_search:
+        return "core-crash %s %s" % (exc, inner)
+    if inner.split(":")[0] in ("add_implied_levels", "synthesize_trials", "sample_continuous"):
+        # raised by main.synthesize_trials after SMGen returned its sequences
+        return "post-crash %s %s" % (exc, inner.split(":")[0])
+    if exc == "AssertionError" and inner.startswith("sample:"):
         return "crash assert"
-    if exc == "KeyError":
+    if exc == "KeyError" and inner.startswith("sample:"):
         return "crash keyerror"
     if exc == "AttributeError" and "cell_index" in msg:
         return "crash attribute"
-    return "crash other %s %s" % (exc, msg[:60])
+    return "crash other %s %s %s" % (exc, inner, msg[:60])
 
 
 def gate_agrees(model, real):
@@ -208,7 +234,7 @@ def gate_agrees(model, real):
     if m[0] == "accept":
         if real.startswith("ok "):
             return real == "ok " + model_length(model)
-        return real == "timeout" or real.startswith("core-refuse ")
+        return real == "timeout" or real.startswith("core-refuse ") or real.startswith("core-crash ") or real.startswith("post-crash ")
     return False
 
 
@@ -309,6 +335,10 @@ def hand_programs():
     trwt = {"id": 3, "name": "trwt", "kind": "derived", "window": {"type": "transition", "deps": [2]},
             "levels": [{"name": "yy", "table": [[["yes", "yes"]]]}, {"name": "o", "else": True}]}
     out.append(("transition-of-within", cross([0, 1, 2, 3], [0, 1], [], [], [f, g, con, trwt])))
+    # weighted factor with an implied derived factor over it: SMGen's dicts lack the hidden factor add_implied_levels reads
+    dw = {"id": 2, "name": "dw", "kind": "derived", "window": {"type": "within", "deps": [0]},
+          "levels": [{"name": "isa", "table": [[["a"]]]}, {"name": "isb", "table": [[["b"]]]}]}
+    out.append(("weighted-with-implied-derived", cross([0, 1, 2], [0, 1], [], [], [fw, g, dw])))
     for k in REFUSED:
         c = {"id": 0, "kind": k, "level": [0, "a"]}
         if k in ("AtMostKInARow", "AtLeastKInARow", "ExactlyK"):
@@ -468,6 +498,10 @@ def run_program(ctx, program, nseeds, limit, seeds=None):
         out = run_smgen(blk2, 2, seed, limit)
         cls = classify_real(blk2, out)
         r["runs"].append(cls)
+        if cls.startswith("core-crash ") or cls.startswith("post-crash "):
+            r["found"].append(("smgen:raises:%s:%s" % (cls.split(" ")[1], cls.split(" ")[2].split(":")[0]),
+                               "the design passes SMGen's support test but synthesize_trials raises %s (%s) instead of refusing or "
+                               "returning sequences" % (cls.split(" ")[1], cls.split(" ")[2]), {"seed": seed, "error": list(out[1:4])}))
         if out[0] != "ok":
             if i == 0 or cls.startswith("timeout"):
                 break          # deterministic refusal / crash, or a search that does not end: the other seeds add nothing
